@@ -241,10 +241,68 @@ fn msm(ctx: &Arc<Ctx>, gm: &GM) {
         },
         |v| ("msm".into(), describe(v)),
     );
+    // LONG vectors: the bucket method picks its window width from the number of terms, so lengths
+    // are a control parameter of their own: powers of two and their neighbours. Bases (i+1)*G
+    // accumulated by addition (Z != 1), scalars cycling through a list that contains members with
+    // the top bit of r set; expected sum computed in the abstract model.
+    {
+        let lens: Vec<usize> = if ctx.quick() { vec![4, 15, 16, 17, 31, 32, 33, 63, 64, 65, 127, 128, 129, 255, 256, 257] } else { vec![4, 15, 16, 17, 31, 32, 33, 63, 64, 65, 127, 128, 129, 255, 256, 257, 511, 512, 513, 1023, 1024, 1025, 2047, 2048, 2049, 4095, 4096, 4097] };
+        run_cases(
+            ctx, "E3/C05-msm-long", false,
+            (0..lens.len() * 3).into_par_iter().map(|i| (lens[i / 3], i % 3)),
+            |&(l, rot)| eval_long_msm(gm, l, rot),
+            |&(l, rot)| ("msm-long".into(), json!({"long_msm": {"len": l, "rotation": rot}})),
+        );
+        ctx.report.rule(format!("E3/C05-msm-long[ark]: vectors of {} lengths (powers of two and neighbours up to {}) x 3 scalar rotations, bases (i+1)G with Z != 1, through msm / msm_unchecked / vartime_multiscalar_mul", lens.len(), lens.iter().max().unwrap()));
+    }
     ctx.report.rule(format!("E3/C05-msm[ark]: {} vectors (all of length 0..=2{} over 6 scalars x 6 points) through vartime_multiscalar_mul (borrowed/owned), VariableBaseMSM::msm, msm_unchecked", vecs.len(), if ctx.quick() { ", one fifth of length 3" } else { ", all of length 3" }));
 }
 
+#[cfg(feature = "ark")]
+pub fn eval_long_msm(gm: &GM, l: usize, rot: usize) -> Outcome {
+    use ark_ec::{CurveGroup, VariableBaseMSM};
+    let r = &gm.gm.dc.r;
+    let g = Element::GENERATOR;
+    let mut bases: Vec<Element> = Vec::with_capacity(l);
+    let mut acc = g;
+    for _ in 0..l {
+        bases.push(acc);
+        acc += g;
+    }
+    let afs: Vec<Affine> = Element::normalize_batch(&bases);
+    let cyc: Vec<BigUint> = vec![r - 1u32, BigUint::one() << 250, (BigUint::one() << 250) + 12345u32, BigUint::one(), BigUint::from(2u32), BigUint::from_bytes_le(&[0x55u8; 31]), (BigUint::one() << 249) + (BigUint::one() << 125), BigUint::from(0xDEAD_BEEFu64), r - 2u32, BigUint::zero(), (r - 1u32) >> 1];
+    let ks_big: Vec<BigUint> = (0..l).map(|i| cyc[(i + rot * 4) % cyc.len()].clone()).collect();
+    let ks: Vec<Fr> = ks_big.iter().map(fr).collect();
+    let mut c = BigUint::zero();
+    for (i, k) in ks_big.iter().enumerate() {
+        c = (c + k * BigUint::from(i as u64 + 1)) % r;
+    }
+    let m = gm.gm.smul(&c, &gm.gm.vi(1, 0));
+    let class = format!("msm-long/len{l}");
+    let outs: Vec<(&'static str, Element)> = vec![
+        ("VariableBaseMSM::msm", <Element as VariableBaseMSM>::msm(&afs, &ks).expect("equal lengths")),
+        ("VariableBaseMSM::msm_unchecked", <Element as VariableBaseMSM>::msm_unchecked(&afs, &ks)),
+        ("vartime_multiscalar_mul(&[Fr], &[Element])", Element::vartime_multiscalar_mul(ks.iter(), bases.iter())),
+    ];
+    for (name, e) in outs {
+        if !gm.conforms(Kind::E, &el_coords(&e), &m) {
+            let p = gm.pt(&m);
+            return Outcome::bad(class, Viol { key: format!("C05|msm-long|{name}"), engine: "E3/C05-msm-long".into(), case: json!({"long_msm": {"len": l, "rotation": rot}}), expected: format!("sum of k_i * (i+1)G = class of ({}, {})", p.x, p.y), got: format!("{name}: {:?}", hex_coords(&el_coords(&e))) });
+        }
+    }
+    Outcome::ok(class)
+}
+
 pub fn replay(case: &Value) -> (bool, Value) {
+    #[cfg(feature = "ark")]
+    if case["long_msm"].is_object() {
+        let gm = build_model(Sel::C05, 1);
+        let o = eval_long_msm(&gm, case["long_msm"]["len"].as_u64().unwrap_or(4) as usize, case["long_msm"]["rotation"].as_u64().unwrap_or(0) as usize);
+        return match o.viol {
+            Some(v) => (false, json!({"what": v.key, "expected": v.expected, "got": v.got})),
+            None => (true, json!({"class": o.class})),
+        };
+    }
     // grid cases: rebuild the scalar from its limbs and re-run the single step
     if case["form"].is_string() {
         let limbs: Vec<u64> = case["k_limbs"].as_array().map(|a| a.iter().filter_map(|x| x.as_str()?.parse().ok()).collect()).unwrap_or_default();
